@@ -119,6 +119,7 @@ func (r *Runner) fillExpandConfig(ctx context.Context) {
 			}
 			r.bgProcs = append(r.bgProcs, bg)
 			go func() {
+				verifYield("procsubst-start")
 				defer func() {
 					*bg.exit = r2.exit
 					close(bg.done)
@@ -155,6 +156,7 @@ func (r *Runner) fillExpandConfig(ctx context.Context) {
 					panic(fmt.Sprintf("unexpected process substitution operator: %q", ps.Op))
 				}
 				r2.stmts(ctx, ps.Stmts)
+				verifYield("procsubst-end")
 				r2.exit.exiting = false // subshells don't exit the parent shell
 			}()
 			return path, nil
@@ -355,11 +357,14 @@ func (r *Runner) stmt(ctx context.Context, st *syntax.Stmt) {
 		}
 		r.bgProcs = append(r.bgProcs, bg)
 		go func() {
+			verifYield("background-start")
 			r2.Run(ctx, &st2)
+			verifYield("background-end")
 			r2.exit.exiting = false // subshells don't exit the parent shell
 			*bg.exit = r2.exit
 			close(bg.done)
 		}()
+		verifYield("background-spawned")
 	} else {
 		r.stmtSync(ctx, st)
 	}
@@ -551,10 +556,13 @@ func (r *Runner) cmd(ctx context.Context, cm syntax.Command) {
 			r.stdin = pr
 			var wg sync.WaitGroup
 			wg.Go(func() {
+				verifYield("pipe-producer-start")
 				r2.stmt(ctx, cm.X)
+				verifYield("pipe-producer-end")
 				r2.exit.exiting = false // subshells don't exit the parent shell
 				pw.Close()
 			})
+			verifYield("pipe-consumer-start")
 			r.stmt(ctx, cm.Y)
 			pr.Close()
 			wg.Wait()
@@ -977,6 +985,7 @@ func (r *Runner) hdocReader(rd *syntax.Redirect) (stdinFile, error) {
 	// We still construct and buffer the entire heredoc first,
 	// as doing it concurrently would lead to different semantics and be racy.
 	go func() {
+		verifYield("heredoc-writer")
 		io.WriteString(pw, hdoc)
 		pw.Close()
 	}()
@@ -1088,6 +1097,7 @@ func (r *Runner) redir(ctx context.Context, rd *syntax.Redirect) (io.Closer, err
 		// We write to the pipe in a new goroutine,
 		// as pipe writes may block once the buffer gets full.
 		go func() {
+			verifYield("herestring-writer")
 			io.WriteString(pw, arg)
 			io.WriteString(pw, "\n")
 			pw.Close()
